@@ -503,6 +503,26 @@ fn random_tree(rng: &mut StdRng) -> Tree {
         };
         nodes.push(Node { p, k: k.into(), to });
     }
+    // sibling directories one of whose names is a proper prefix of the other's,
+    // the next character sorting below '/': whole-pathname order differs from
+    // component-wise order there
+    if rng.gen_range(0..3) == 0 {
+        let dirs: Vec<String> = nodes.iter().filter(|x| x.k == "d" && x.p.matches('/').count() <= 2).map(|x| x.p.clone()).collect();
+        let parent = pick(rng, &dirs).clone();
+        let base = *pick(rng, &["a", "b", "ab", "sub"]);
+        let child = *pick(rng, &pool);
+        for suffix in ["", "-", ".d", "*", "+", "b"] {
+            if !suffix.is_empty() && rng.gen_bool(0.4) {
+                continue;
+            }
+            let d = format!("{parent}/{base}{suffix}");
+            if nodes.iter().any(|x| x.p == d) {
+                continue;
+            }
+            nodes.push(Node { p: d.clone(), k: "d".into(), to: String::new() });
+            nodes.push(Node { p: format!("{d}/{child}"), k: "f".into(), to: String::new() });
+        }
+    }
     let dirs: Vec<String> = nodes.iter().filter(|x| x.k == "d").map(|x| x.p.clone()).collect();
     let cwd = if rng.gen_bool(0.7) { "/w".to_string() } else { pick(rng, &dirs).clone() };
     Tree { cwd, nodes }
